@@ -4,6 +4,7 @@ import (
 	"strings"
 
 	"golang.org/x/net/html"
+	"golang.org/x/net/html/atom"
 )
 
 // C19 — formatting is idempotent and preserves what the template means.
@@ -167,6 +168,16 @@ var zzC19Corpus = []string{
 	/* 14 */ "<span><b><script>if (a<b && c>d) { go(); }</script></b></span><p><i><style>p > a { color: red }</style></i></p>",
 	/* 15 */ "<div><span><pre>  two\n   lines </pre></span><em><textarea>  keep\n  me </textarea></em></div>",
 	/* 16 */ "<p><label>a <input type=\"checkbox\" checked> b</label> <select><option selected>x</option></select></p>",
+	// fragments that start with a table-scoped element, the tag name followed
+	// by every kind of delimiter
+	/* 17 */ "<tr\n  v-for=\"row in rows\"\n  :key=\"row.id\">\n  <td>{{ row.name }}</td>\n  <td>{{ row.value }}</td>\n</tr>\n",
+	/* 18 */ "<td\tclass=\"x\">a</td><td>b</td>",
+	/* 19 */ "---\nk: v\n---\n<thead\n><tr><th>h</th></tr></thead>",
+	/* 20 */ "<tr><td>1</td></tr><tr\n><td>2</td></tr>",
+	/* 21 */ "<TBODY><tr><td>x</td></tr></TBODY>",
+	/* 22 */ "<col span=\"2\"><col>",
+	/* 23 */ "<caption>c</caption><tr><td>1</td></tr>",
+	/* 24 */ "<thing>not a table element</thing><p>x</p>",
 }
 
 func zzSig(nodes []*html.Node) string {
@@ -208,6 +219,31 @@ func zzSig(nodes []*html.Node) string {
 	return sb.String()
 }
 
+// zzContextFor chooses the parse context of a fragment from its first tag as
+// HTML5 does for table-scoped elements (independently of the formatter).
+func zzContextFor(body string) *html.Node {
+	t := strings.TrimSpace(body)
+	name := ""
+	if strings.HasPrefix(t, "<") {
+		k := 1
+		for k < len(t) && t[k] != ' ' && t[k] != '\t' && t[k] != '\n' && t[k] != '\r' && t[k] != '\f' && t[k] != '>' && t[k] != '/' {
+			k++
+		}
+		name = strings.ToLower(t[1:k])
+	}
+	switch name {
+	case "td", "th":
+		return &html.Node{Type: html.ElementNode, DataAtom: atom.Tr, Data: "tr"}
+	case "tr":
+		return &html.Node{Type: html.ElementNode, DataAtom: atom.Tbody, Data: "tbody"}
+	case "thead", "tbody", "tfoot", "caption", "colgroup":
+		return &html.Node{Type: html.ElementNode, DataAtom: atom.Table, Data: "table"}
+	case "col":
+		return &html.Node{Type: html.ElementNode, DataAtom: atom.Colgroup, Data: "colgroup"}
+	}
+	return &html.Node{Type: html.ElementNode, DataAtom: atom.Body, Data: "body"}
+}
+
 func zzParseBody(f *Formatter, src string) []*html.Node {
 	_, body := f.splitFrontmatter(src)
 	trimmed := strings.TrimSpace(body)
@@ -218,7 +254,7 @@ func zzParseBody(f *Formatter, src string) []*html.Node {
 		}
 		return []*html.Node{doc}
 	}
-	nodes, err := html.ParseFragment(strings.NewReader(body), fragmentContext(body))
+	nodes, err := html.ParseFragment(strings.NewReader(body), zzContextFor(body))
 	if err != nil {
 		return nil
 	}
